@@ -22,3 +22,24 @@ func C20Pending(s *Supervisor) (watchers, events, snapshots int) {
 	}
 	return watchers, events, len(or.configSyncChan)
 }
+
+// C20ReplaceKind puts a recording object of the harness in the place of an
+// already registered kind (the real "Pipeline": RawConfigTrafficController
+// routes objects of exactly that kind to TrafficController's pipeline map, so
+// the pipeline half of TrafficController can only be reached with an object
+// that carries this kind name). Plumbing only.
+func C20ReplaceKind(o Object) {
+	if _, ok := objectRegistry[o.Kind()]; !ok {
+		Register(o)
+		return
+	}
+	objectRegistry[o.Kind()] = o
+	for i, x := range objectRegistryOrderByDependency {
+		if x.Kind() == o.Kind() {
+			objectRegistryOrderByDependency[i] = o
+		}
+	}
+	if _, ok := o.(TrafficObject); ok {
+		TrafficObjectKinds[o.Kind()] = struct{}{}
+	}
+}
